@@ -132,7 +132,10 @@ def kappa1d(ctx, rng, idx):
     a = sign * float(np.round(rng.uniform(0.3, 3.0), 3))
     L = float(np.round(rng.uniform(0.5, 4.0), 3))
     num, rname = gen.recon(rname0, rng, k=k)
-    mesh = fmesh.unimesh(ncell=n, length=L, x0=float(rng.choice([0.0, np.round(rng.uniform(-2, 2), 3)])))
+    x0 = float(rng.choice([0.0, np.round(rng.uniform(-2, 2), 3)]))
+    mk = int(rng.integers(4))      # the uniform periodic mesh comes from any class that can build one
+    mesh = [lambda: fmesh.unimesh(ncell=n, length=L, x0=x0), lambda: fmesh.mesh1d(ncell=n, length=L, x0=x0),
+            lambda: fmesh.morphedmesh(ncell=n, length=L, x0=x0), lambda: fmesh.refinedmesh(ncell=n, length=L, ratio=1.0)][mk]()
     model = conv.model(a)
     disc = md.fvm(model, mesh, num)
     A = np.zeros((n, n))
